@@ -292,3 +292,6 @@ def store(eng, st):
     """the block store singleton (DefaultBlockStore.instance) of this activation"""
     import skepticoin.blockstore as bs
     return eng.singleton_refs[id(bs.DefaultBlockStore.instance)]
+_pred('coinbase_built', [INT, LIST(CLS('Transaction')), MAP(CLS('OutputReference'), CLS('Output')), BYTES, CLS('PublicKey')])
+_pred('summary_built', [CLS('CoinState'), LIST(CLS('Transaction')), INT, INT])
+_pred('candidate_built', [CLS('CoinState'), LIST(CLS('Transaction')), CLS('PublicKey'), INT, BYTES, INT])
